@@ -61,6 +61,11 @@ func VfC04_Redirect() {
 	if nd.Bool("refresh-already-pending") {
 		u.triggerSlotsRefresh()
 	}
+	if nd.Bool("both-nodes-are-known-masters") {
+		// a loaded routing table: the node named by a redirection already owns other slots
+		u.slots[5], u.slots[4000] = &instance{Addr: a}, &instance{Addr: b}
+		nd.Cover("known-masters")
+	}
 	req := newSimpleRequest(newArray(*newBulkString("set"), *newBulkString("k"), *newBulkBytes(nd.Bytes("v", 2))))
 	body := req.Body()
 	nd.PanicLabel("redirection")
